@@ -2674,8 +2674,9 @@ def interp_correspondence(ck: Ck) -> None:
         return [r for r in runs if not r[0].startswith('(RSub') or table[int(r[0][6:-1])] in src]
     bad: list[dict] = []
     n = 0
-    for lo in range(0, len(progs), 60):
-        part = progs[lo:lo + 60]
+    ch = 60 if ck.thorough else 400
+    for lo in range(0, len(progs), ch):
+        part = progs[lo:lo + ch]
         exprs = []
         for _src, term in part:
             walks = '; '.join(f'walk (exit_tree (spec_stmt {rc} p) {"true" if exc else "false"}) {coq_list(map(str, o))}'
@@ -2818,9 +2819,10 @@ class _Deferred:
                 proc = subprocess.Popen(['coqc', '-Q', str(ROCQ), 'SV', '-Q', str(d), 'Scratch', str(d / f'{name}.v')],
                                         stdout=fh, stderr=subprocess.STDOUT, cwd=d, preexec_fn=_unlimit_stack)
                 outer.jobs.append(dict(fn=fn, args=args, key=(tuple(imports), tuple(exprs), preamble), proc=proc, fh=fh,
-                                       out=d / 'out.txt', name=name, timeout=timeout))
+                                       out=d / 'out.txt', name=name, timeout=timeout, rng=rng0))
                 raise _Pending()
-        try:
+        rng0 = ck.rng.getstate()      # the second pass must draw what the first one drew (interp_correspondence generates
+        try:                          # its programs before its first request, and draws nothing afterwards)
             fn(Rec(), *args)          # completes only when it needs no evaluation at all (then its reports are made)
         except _Pending:
             pass
@@ -2856,9 +2858,12 @@ class _Deferred:
                         ck.notes.append(f'coq_eval {name}: expected {len(exprs)} values, got {len(vals)}')
                         return None
                     return vals
+            cur = ck.rng.getstate()
+            ck.rng.setstate(job['rng'])
             try:
                 job['fn'](Play(), *job['args'])
             finally:
+                ck.rng.setstate(cur)
                 if job['proc'].poll() is None:
                     job['proc'].kill()
 
@@ -3132,11 +3137,12 @@ def _campaigns(ck: Ck, built: bool, background: '_TheoremsInBackground | None' =
     t1 = time.time()
     if built:
         class_table_correspondence(ck)
-        interp_correspondence(ck)
+        deferred(ck).submit(interp_correspondence)
     stage['interpreter'] = round(time.time() - t1, 1)
     t1 = time.time()
     scs = scenarios(ck)
     single_campaign(ck, scs, bool(built))
+    deferred(ck).join(keep=1)
     stage['single'] = round(time.time() - t1, 1)
     t1 = time.time()
     history_campaign(ck, bool(built))
